@@ -597,6 +597,9 @@ class Model:
         ``_inline_public`` set: any function of the same module called by its bare
         name, any method of the same class called through self)"""
         n = call
+        nm_ = n.func.id if isinstance(n.func, ast.Name) else getattr(n.func, "attr", None)
+        if nm_ in getattr(self, "_inline_exclude", ()):
+            return None
         if self._inline_public and isinstance(n.func, ast.Attribute) \
                 and not n.func.attr.startswith("__") \
                 and isinstance(n.func.value, ast.Name) \
@@ -621,7 +624,7 @@ class Model:
                 return r[1]
         return None
 
-    def inlined(self, fd, depth=2):
+    def inlined(self, fd, depth=2, exclude=()):
         """A copy of ``fd`` in which calls to private helpers (as in
         :meth:`private_callees`) are replaced by the helper's body: statement-position
         calls (``x = _h(a)``, ``_h(a)``, ``return _h(a)``) by the body in tail form
@@ -631,10 +634,19 @@ class Model:
         */** arguments stays a call.  Rules that compare the text or the shape of a
         block work on this copy, so that extracting the block into a helper does not
         change what they see."""
-        key = (id(fd), depth, self._inline_public)
+        key = (id(fd), depth, self._inline_public, tuple(sorted(exclude)))
         cache = self.__dict__.setdefault("_inl_cache", {})
         if key in cache:
             return cache[key]
+        # (helpers a rule wants to keep as calls, by name)
+        saved_excl = getattr(self, "_inline_exclude", frozenset())
+        self._inline_exclude = frozenset(exclude) | saved_excl
+        try:
+            return self._inlined(fd, depth, key, cache)
+        finally:
+            self._inline_exclude = saved_excl
+
+    def _inlined(self, fd, depth, key, cache):
         mi = self.module_of(fd)
         cls = self.enclosing_class(fd)
         ci = None
